@@ -67,7 +67,7 @@ pub fn nopanic<T>(what: &str, f: impl FnOnce() -> T) -> Result<T, Fail> {
 static CASE_START_CPU_MS: AtomicU64 = AtomicU64::new(u64::MAX);
 static CASE_CPU_LIMIT_MS: AtomicU64 = AtomicU64::new(60_000);
 static CASE_START_WALL: AtomicU64 = AtomicU64::new(0);
-static CASE_WALL_LIMIT_MS: AtomicU64 = AtomicU64::new(300_000);
+static CASE_WALL_LIMIT_MS: AtomicU64 = AtomicU64::new(90_000);
 
 fn process_cpu_ms() -> u64 {
     let mut ts = libc::timespec { tv_sec: 0, tv_nsec: 0 };
